@@ -1,5 +1,8 @@
 #!/bin/sh
-# builds the analysis tools into /verif/build (offline)
+# builds the analysis tools into /verif/build (offline; ~30 s)
 set -e
 cd "$(dirname "$0")"
 mkdir -p build evidence out
+clang++ $(llvm-config-14 --cxxflags) -std=c++17 -fno-rtti -O1 tools/jpfacts/jpfacts.cc -o build/jpfacts \
+    /usr/lib/llvm-14/lib/libclang-cpp.so.14 /usr/lib/llvm-14/lib/libLLVM-14.so
+echo "setup ok"
